@@ -38,6 +38,7 @@ class DealMonitor(Monitor):
         self.prefix = prefix
         self.m = None
         self.first_in_call = None
+        self.prev_boards = []
 
     def ensure(self, st):
         if self.m is None and self.model_factory is not None:
@@ -47,8 +48,32 @@ class DealMonitor(Monitor):
                        for s in st.streets]
             self.m = RDeal(st.player_count, streets, st.starting_board_count, len(st.deck))
 
+    def boards_of(self, st):
+        return [list(st.get_board_cards(b)) for b in st.board_indices] if st.board_cards else []
+
     def on_op(self, world, st, op):
         self.ensure(st)
+        if type(op).__name__ == 'BoardDealing' and self.m.fallbacks == 0:
+            # the dealt cards go, in order, to the end of ONE board - the first that still lacks cards of this street - and
+            # no other board changes
+            now = self.boards_of(st)
+            prev = self.prev_boards
+            if len(prev) != len(now):
+                prev = None               # the number of boards changed inside this call (run-out count agreed): no reference
+            changed = [b for b in range(len(now)) if prev is not None and now[b] != prev[b]]
+            k = len(op.cards)
+            grown = [b for b in changed if now[b][:len(now[b]) - k] == prev[b][:len(now[b]) - k] and now[b][-k:] == list(op.cards)
+                     and len(now[b]) == len(prev[b]) + k]
+            shared = len(now) > len({tuple(x) for x in now})          # run-outs that still share every card dealt so far
+            if prev is not None and not shared and (len(changed) != 1 or grown != changed):
+                raise Violation(self.prefix + '.placement', f'{op!r}: the cards did not go to the end of exactly one board: boards '
+                                f'before {prev}, after {now} [log {opseq(st)}]', rule='placement')
+            if prev is not None and not shared and self.m.in_phase:
+                want = next((j for j, c in enumerate(self.m.pend_board) if c), None)
+                if want is not None and len(now) == len(self.m.pend_board) and changed[0] != want:
+                    raise Violation(self.prefix + '.placement', f'{op!r} went to board {changed[0]}, the first board still lacking '
+                                    f'cards of this street is {want} (pending {self.m.pend_board})', rule='placement')
+        self.prev_boards = self.boards_of(st)
         default_index = True
         call = world.in_call
         if call is not None and call[0] == 'deal_hole' and self.first_in_call is not call:
